@@ -16,6 +16,18 @@ Qed.
 Lemma memN_false x l : memN x l = false <-> ~ In x l.
 Proof. rewrite <- memN_In. destruct (memN x l); split; congruence. Qed.
 
+Lemma NoDup_app_snoc {A} (l : list A) x : NoDup l -> ~ In x l -> NoDup (l ++ [x]).
+Proof.
+  intros ND Hx. induction ND as [|y l Hy ND IH]; cbn.
+  - constructor; [intros [] | constructor].
+  - constructor.
+    + intros H. apply in_app_or in H. destruct H as [H|[H|[]]]; [exact (Hy H)|]. subst. apply Hx. left. reflexivity.
+    + apply IH. intros H. apply Hx. right. exact H.
+Qed.
+
+Lemma ss_app_r {A} (R : A -> A -> Prop) l1 l2 : StronglySorted R (l1 ++ l2) -> StronglySorted R l2.
+Proof. induction l1 as [|x l1 IH]; cbn; [auto|]. intros H. apply StronglySorted_inv in H. apply IH, H. Qed.
+
 Section P.
 Variable o : topts.
 
@@ -76,7 +88,7 @@ Proof.
     destruct (update_track ts tid (fun t => merge_into o t e v d)) as [[ts1 t1]|].
     + destruct U as (Hin & Hids & t0 & Ht0 & Hid & Ht1). intros H. injection H as <- <- <-.
       subst t1. destruct (record_merge_into t0 e v d) as (R1 & R2 & R3 & _).
-      split; [exact R3|]. right. exists tid, v. repeat split; try assumption. rewrite R1. exact Hid.
+      split; [exact R3|]. right. exists tid, v. repeat split; try assumption; try (rewrite R1; exact Hid).
     + apply Fresh. right. exists tid, v. split; [reflexivity | exact U].
 Qed.
 
@@ -92,7 +104,8 @@ Lemma apply_all_spec scene e : forall dds ts next ts' next' recs,
      (dec = NewTrack -> (next < tr_id r)%N /\ tr_visual r = false /\ tr_len r = 1).
 Proof.
   induction dds as [|[d0 dec0] dds IH]; intros ts next ts' next' recs H.
-  - cbn in H. injection H as <- <- <-. repeat split; try (apply incl_refl); auto; try lia.
+  - cbn in H. injection H as <- <- <-.
+    split; [reflexivity|]. split; [lia|]. split; [apply incl_refl|]. split; [auto|]. split; [auto|].
     intros [|i] d dec r H1; discriminate.
   - cbn [apply_all] in H.
     destruct (apply_one o scene e (ts, next) (d0, dec0)) as [[ts1 next1] r0] eqn:E1.
@@ -127,4 +140,850 @@ Proof.
       * intros E'. destruct (R4 E') as (Q1 & Q2 & Q3). repeat split; try assumption. lia.
 Qed.
 
+
+(* ================================================================================================ *)
+(* Layer B: best-fit voting                                                                         *)
+
+Definition wge (a b : claim) : Prop := (cl_w b <= cl_w a)%Q.
+
+Lemma insert_claim_perm c l : Permutation (insert_claim c l) (c :: l).
+Proof.
+  induction l as [|x l IH]; cbn [insert_claim]; [reflexivity|].
+  destruct (Qle_bool (cl_w x) (cl_w c)); [reflexivity|]. rewrite IH. apply perm_swap.
+Qed.
+
+Lemma sort_claims_perm l : Permutation (sort_claims l) l.
+Proof.
+  induction l as [|x l IH]; [reflexivity|].
+  cbn [sort_claims fold_right]. fold (sort_claims l). rewrite insert_claim_perm. constructor. exact IH.
+Qed.
+
+Lemma insert_claim_sorted c l : StronglySorted wge l -> StronglySorted wge (insert_claim c l).
+Proof.
+  induction 1 as [|x l Hs IH Hx]; cbn [insert_claim].
+  - repeat constructor.
+  - destruct (Qle_bool (cl_w x) (cl_w c)) eqn:E.
+    + apply Qle_bool_iff in E. constructor; [constructor; assumption|].
+      constructor; [exact E|]. rewrite Forall_forall in *. intros y Hy. unfold wge in *.
+      eapply Qle_trans; [apply Hx, Hy | exact E].
+    + constructor; [exact IH|].
+      rewrite Forall_forall in *. intros y Hy.
+      apply (Permutation_in _ (insert_claim_perm c l)) in Hy. destruct Hy as [<-|Hy]; [|apply Hx, Hy].
+      unfold wge. destruct (Qlt_le_dec (cl_w c) (cl_w x)) as [Hlt|Hle]; [apply Qlt_le_weak, Hlt|].
+      apply Qle_bool_iff in Hle. congruence.
+Qed.
+
+Lemma sort_claims_sorted l : StronglySorted wge (sort_claims l).
+Proof.
+  induction l as [|x l IH]; [constructor|].
+  cbn [sort_claims fold_right]. fold (sort_claims l). apply insert_claim_sorted, IH.
+Qed.
+
+Lemma greedy_fst l : forall taken, map fst (greedy taken l) = l.
+Proof.
+  induction l as [|x l IH]; intros taken; [reflexivity|]. cbn [greedy].
+  destruct (memN (cl_to x) taken); cbn [map fst]; rewrite IH; reflexivity.
+Qed.
+
+Lemma greedy_won l : forall taken c, In (c, true) (greedy taken l) ->
+  ~ In (cl_to c) taken /\ exists l1 l2, l = l1 ++ c :: l2 /\ forall c', In c' l1 -> cl_to c' <> cl_to c.
+Proof.
+  induction l as [|x l IH]; intros taken c H; [destruct H|]. cbn [greedy] in H.
+  destruct (memN (cl_to x) taken) eqn:E.
+  - destruct H as [H|H]; [discriminate|]. destruct (IH _ _ H) as (Hn & l1 & l2 & -> & Hl1).
+    split; [exact Hn|]. exists (x :: l1), l2. split; [reflexivity|].
+    intros c' [<-|Hc']; [|apply Hl1, Hc']. intros Heq. apply Hn. rewrite <- Heq. apply memN_In, E.
+  - apply memN_false in E. destruct H as [H|H].
+    + injection H as <-. split; [exact E|]. exists [], l. split; [reflexivity | intros c' []].
+    + destruct (IH _ _ H) as (Hn & l1 & l2 & -> & Hl1).
+      split; [intros Hin; apply Hn; right; exact Hin|]. exists (x :: l1), l2. split; [reflexivity|].
+      intros c' [<-|Hc']; [|apply Hl1, Hc']. intros Heq. apply Hn. left. exact Heq.
+Qed.
+
+Lemma greedy_won_unique l : forall taken c1 c2,
+  In (c1, true) (greedy taken l) -> In (c2, true) (greedy taken l) -> cl_to c1 = cl_to c2 -> c1 = c2.
+Proof.
+  induction l as [|x l IH]; intros taken c1 c2 H1 H2 Heq; [destruct H1|]. cbn [greedy] in H1, H2.
+  destruct (memN (cl_to x) taken).
+  - destruct H1 as [H1|H1]; [discriminate|]. destruct H2 as [H2|H2]; [discriminate|]. eapply IH; eassumption.
+  - destruct H1 as [H1|H1]; destruct H2 as [H2|H2].
+    + congruence.
+    + injection H1 as <-. destruct (greedy_won _ _ _ H2) as (Hn & _). exfalso. apply Hn. left. exact Heq.
+    + injection H2 as <-. destruct (greedy_won _ _ _ H1) as (Hn & _). exfalso. apply Hn. left. symmetry. exact Heq.
+    + eapply IH; eassumption.
+Qed.
+
+Lemma bestfit_in_claims ds c b : In (c, b) (bestfit o ds) -> In c (claims o ds).
+Proof.
+  intros H. unfold bestfit in H. apply (in_map fst) in H. rewrite greedy_fst in H. cbn in H.
+  apply (Permutation_in _ (sort_claims_perm _)), H.
+Qed.
+
+Lemma bestfit_heaviest ds c : In (c, true) (bestfit o ds) ->
+  forall c', In c' (claims o ds) -> cl_to c' = cl_to c -> (cl_w c' <= cl_w c)%Q.
+Proof.
+  intros H c' Hc' Hto. unfold bestfit in H.
+  destruct (greedy_won _ _ _ H) as (_ & l1 & l2 & E & Hl1).
+  pose proof (sort_claims_sorted (claims o ds)) as S. rewrite E in S.
+  apply (Permutation_in _ (Permutation_sym (sort_claims_perm _))) in Hc'. rewrite E in Hc'.
+  apply in_app_or in Hc'. destruct Hc' as [Hc'|[<-|Hc']].
+  - exfalso. exact (Hl1 _ Hc' Hto).
+  - apply Qle_refl.
+  - apply ss_app_r in S. apply StronglySorted_inv in S. destruct S as [_ F].
+    rewrite Forall_forall in F. apply F, Hc'.
+Qed.
+
+Lemma visual_decision_win bf c t : visual_decision bf c = VWin t ->
+  exists cl, In (cl, true) bf /\ cl_from cl = c /\ cl_to cl = t.
+Proof.
+  unfold visual_decision. destruct (find (fun p => (cl_from (fst p) =? c)%N) bf) as [[cl b]|] eqn:E; [|discriminate].
+  apply find_some in E. destruct E as [Hin Hc]. cbn in Hc. apply N.eqb_eq in Hc.
+  destruct b; intros H; [|discriminate]. injection H as <-. exists cl. auto.
+Qed.
+
+Lemma visual_decision_lost bf c t : visual_decision bf c = VLost t ->
+  exists cl, In (cl, false) bf /\ cl_from cl = c /\ cl_to cl = t.
+Proof.
+  unfold visual_decision. destruct (find (fun p => (cl_from (fst p) =? c)%N) bf) as [[cl b]|] eqn:E; [|discriminate].
+  apply find_some in E. destruct E as [Hin Hc]. cbn in Hc. apply N.eqb_eq in Hc.
+  destruct b; intros H; [discriminate|]. injection H as <-. exists cl. auto.
+Qed.
+
+Lemma visual_decision_none bf c : visual_decision bf c = VNone <-> ~ In c (claimants bf).
+Proof.
+  unfold visual_decision, claimants. split.
+  - destruct (find (fun p => (cl_from (fst p) =? c)%N) bf) as [[cl b]|] eqn:E; [destruct b; discriminate|].
+    intros _ Hin. apply in_map_iff in Hin. destruct Hin as (p & Hp & Hin).
+    pose proof (find_none _ _ E _ Hin) as F. cbn in F. rewrite Hp, N.eqb_refl in F. discriminate.
+  - intros Hn. destruct (find (fun p => (cl_from (fst p) =? c)%N) bf) as [[cl b]|] eqn:E; [|reflexivity].
+    apply find_some in E. destruct E as [Hin Hc]. cbn in Hc. apply N.eqb_eq in Hc.
+    exfalso. apply Hn. apply in_map_iff. exists (cl, b). auto.
+Qed.
+
+(* a candidate with a claim is a claimant *)
+Lemma claim_is_claimant ds c : In c (claims o ds) -> In (cl_from c) (claimants (bestfit o ds)).
+Proof.
+  intros H. unfold claimants, bestfit.
+  apply (Permutation_in _ (Permutation_sym (sort_claims_perm _))) in H.
+  rewrite <- (greedy_fst (sort_claims (claims o ds)) []) in H.
+  apply in_map_iff in H. destruct H as (p & Hp & Hin). apply in_map_iff. exists p. split; [rewrite Hp; reflexivity | exact Hin].
+Qed.
+
+
+(* ================================================================================================ *)
+(* Layer C: claims <-> distances <-> oracle facts                                                   *)
+
+Lemma claims_spec ds c : In c (claims o ds) ->
+  In (cl_from c, cl_to c) (keys_from o [] ds) /\
+  cl_votes c = length (votes_for o ds (cl_from c) (cl_to c)) /\ to_min_votes o <= cl_votes c /\
+  cl_w c = Qsum (map (fun e => (max_dist ds - e)%Q) (votes_for o ds (cl_from c) (cl_to c))).
+Proof.
+  unfold claims. intros H. apply in_flat_map in H. destruct H as ([a b] & Hk & Hc). cbn [fst snd] in Hc.
+  destruct (Nat.leb_spec (to_min_votes o) (length (votes_for o ds a b))) as [Hle|Hgt]; [|destruct Hc].
+  destruct Hc as [<-|[]]. cbn [cl_from cl_to cl_votes cl_w]. auto.
+Qed.
+
+Lemma keys_from_in ds : forall seen k, In k (keys_from o seen ds) ->
+  exists x, In x ds /\ (di_from x, di_to x) = k /\ vote_of o x <> None.
+Proof.
+  induction ds as [|x ds IH]; intros seen k H; [destruct H|]. cbn [keys_from] in H.
+  destruct (vote_of o x) eqn:V.
+  - destruct (existsb (key_eqb (di_from x, di_to x)) seen).
+    + destruct (IH _ _ H) as (y & Hy & E & N0). exists y. auto using in_cons.
+    + destruct H as [<-|H].
+      * exists x. split; [left; reflexivity|]. split; [reflexivity | congruence].
+      * destruct (IH _ _ H) as (y & Hy & E & N0). exists y. auto using in_cons.
+  - destruct (IH _ _ H) as (y & Hy & E & N0). exists y. auto using in_cons.
+Qed.
+
+Lemma all_dists_in cl e tracks x : In x (all_dists o cl e tracks) ->
+  exists d t, In d (c_dets cl) /\ In t tracks /\ compatible o (c_scene cl) e t = true /\ In x (dists_pair o cl d t).
+Proof.
+  unfold all_dists. intros H. apply in_flat_map in H. destruct H as (d & Hd & H).
+  apply in_flat_map in H. destruct H as (t & Ht & H).
+  destruct (compatible o (c_scene cl) e t) eqn:C; [|destruct H]. exists d, t. auto.
+Qed.
+
+Definition dist_from_obs cl d t (g : gallery) (x : dist) : Prop :=
+  di_from x = d_uid d /\ di_to x = tt_id t /\
+  (exists gx, In gx g /\ di_fd x = visual_metric o cl d t gx) /\
+  (di_pos x = None \/ di_pos x = pos_gate o (c_pos cl (d_uid d) (tt_id t))).
+
+Lemma dists_obs_in cl d t : forall g first x, In x (dists_obs o cl d t first g) -> dist_from_obs cl d t g x.
+Proof.
+  induction g as [|gx g IH]; intros first x H; [destruct H|]. cbn [dists_obs] in H.
+  assert (Rest : In x (dists_obs o cl d t false g) -> dist_from_obs cl d t (gx :: g) x).
+  { intros Hr. destruct (IH _ _ Hr) as (A & B & (g0 & Hg0 & C) & D). repeat split; auto. exists g0. auto using in_cons. }
+  assert (Head : x = mkDist (d_uid d) (tt_id t) (if first then pos_gate o (c_pos cl (d_uid d) (tt_id t)) else None) (visual_metric o cl d t gx) ->
+                 dist_from_obs cl d t (gx :: g) x).
+  { intros ->. unfold dist_from_obs. cbn [di_from di_to di_fd di_pos]. split; [reflexivity|]. split; [reflexivity|]. split.
+    - exists gx. split; [left|]; reflexivity.
+    - destruct first; auto. }
+  destruct (if first then pos_gate o (c_pos cl (d_uid d) (tt_id t)) else None) eqn:P;
+    destruct (visual_metric o cl d t gx) eqn:V; try (destruct H as [H|H]; [apply Head; rewrite <- H; reflexivity | apply Rest, H]).
+  apply Rest, H.
+Qed.
+
+Lemma visual_metric_some cl d t gx e : visual_metric o cl d t gx = Some e ->
+  can_use o d = true /\ d_feat d = true /\ g_feat gx = true /\ to_min_len o <= collected t /\
+  is_ok (to_vis o) (c_fd cl (d_uid d) (g_uid gx)) = true /\
+  e = distance_to_weight (to_vis o) (c_fd cl (d_uid d) (g_uid gx)).
+Proof.
+  unfold visual_metric. destruct (can_use o d); [|discriminate].
+  destruct (d_feat d); [|discriminate]. destruct (g_feat gx); cbn [andb]; [|discriminate].
+  destruct (Nat.leb_spec (to_min_len o) (collected t)) as [Hlen|Hlen]; [|discriminate].
+  destruct (is_ok (to_vis o) (c_fd cl (d_uid d) (g_uid gx))); [|discriminate].
+  intros Hw. injection Hw as <-. repeat split; auto.
+Qed.
+
+Definition vm_ok cl d t gx : bool := match visual_metric o cl d t gx with Some _ => true | None => false end.
+
+Lemma votes_for_app a b u t : votes_for o (a ++ b) u t = votes_for o a u t ++ votes_for o b u t.
+Proof. unfold votes_for. apply flat_map_app. Qed.
+
+Lemma votes_for_cons x ds u t :
+  votes_for o (x :: ds) u t =
+  (if (di_from x =? u)%N && (di_to x =? t)%N then match vote_of o x with Some e => [e] | None => [] end else [])
+  ++ votes_for o ds u t.
+Proof. reflexivity. Qed.
+
+Lemma votes_for_other ds u t : (forall x, In x ds -> di_from x <> u \/ di_to x <> t) -> votes_for o ds u t = [].
+Proof.
+  induction ds as [|x ds IH]; intros H; [reflexivity|]. rewrite votes_for_cons.
+  rewrite IH by (intros; apply H; right; assumption).
+  destruct (H x (or_introl eq_refl)) as [N0|N0].
+  - apply N.eqb_neq in N0. rewrite N0. reflexivity.
+  - apply N.eqb_neq in N0. rewrite N0, andb_false_r. reflexivity.
+Qed.
+
+Lemma votes_for_flat_map_nil {A} (f : A -> list dist) l u t :
+  (forall x, In x l -> votes_for o (f x) u t = []) -> votes_for o (flat_map f l) u t = [].
+Proof.
+  induction l as [|x l IH]; intros H; [reflexivity|]. cbn [flat_map]. rewrite votes_for_app, H, IH; auto using in_eq, in_cons.
+Qed.
+
+Lemma votes_for_collapse {A} (key : A -> N) (f : A -> list dist) l a u t :
+  NoDup (map key l) -> In a l ->
+  (forall x, key x <> key a -> votes_for o (f x) u t = []) ->
+  votes_for o (flat_map f l) u t = votes_for o (f a) u t.
+Proof.
+  intros ND Hin Hother. induction l as [|x l IH]; [destruct Hin|].
+  cbn [map] in ND. apply NoDup_cons_iff in ND. destruct ND as [Hx ND]. cbn [flat_map]. rewrite votes_for_app.
+  destruct Hin as [->|Hin].
+  - rewrite votes_for_flat_map_nil, app_nil_r; [reflexivity|].
+    intros y Hy. apply Hother. intros E. apply Hx. rewrite <- E. apply in_map, Hy.
+  - rewrite Hother, IH; auto. intros E. apply Hx. rewrite E. apply in_map, Hin.
+Qed.
+
+Lemma votes_for_dists_obs_len cl d t : forall g first,
+  length (votes_for o (dists_obs o cl d t first g) (d_uid d) (tt_id t)) <= length (filter (vm_ok cl d t) g).
+Proof.
+  induction g as [|gx g IH]; intros first; [cbn; lia|]. cbn [dists_obs filter]. unfold vm_ok at 1.
+  specialize (IH false).
+  destruct (visual_metric o cl d t gx) eqn:V.
+  - destruct (if first then pos_gate o (c_pos cl (d_uid d) (tt_id t)) else None);
+      rewrite votes_for_cons, app_length; cbn [di_from di_to]; rewrite !N.eqb_refl; cbn [andb];
+      (destruct (vote_of o _); cbn [length]; lia).
+  - destruct (if first then pos_gate o (c_pos cl (d_uid d) (tt_id t)) else None).
+    + rewrite votes_for_cons. cbn [di_from di_to]. rewrite !N.eqb_refl. cbn [andb]. unfold vote_of. cbn [di_fd app]. exact IH.
+    + exact IH.
+Qed.
+
+Lemma filter_length_mono {A} (f g : A -> bool) l : (forall x, f x = true -> g x = true) ->
+  length (filter f l) <= length (filter g l).
+Proof.
+  intros H. induction l as [|x l IH]; [cbn; lia|]. cbn [filter].
+  destruct (f x) eqn:F; [rewrite (H _ F); cbn; lia|]. destruct (g x); cbn; lia.
+Qed.
+
+Lemma key_eqb_eq a b : key_eqb a b = true <-> a = b.
+Proof.
+  unfold key_eqb. destruct a as [a1 a2], b as [b1 b2]. cbn [fst snd]. rewrite andb_true_iff, !N.eqb_eq.
+  split; [intros [-> ->]; reflexivity | intros H; injection H; auto].
+Qed.
+
+Lemma existsb_key_false k seen : existsb (key_eqb k) seen = false <-> ~ In k seen.
+Proof.
+  split.
+  - intros H Hin. assert (E : existsb (key_eqb k) seen = true) by (apply existsb_exists; exists k; split; [exact Hin | apply key_eqb_eq; reflexivity]). congruence.
+  - intros H. destruct (existsb (key_eqb k) seen) eqn:E; [|reflexivity].
+    apply existsb_exists in E. destruct E as (y & Hy & E). apply key_eqb_eq in E. subst. contradiction.
+Qed.
+
+Lemma keys_from_complete ds : forall seen k,
+  (exists x, In x ds /\ (di_from x, di_to x) = k /\ vote_of o x <> None) -> ~ In k seen -> In k (keys_from o seen ds).
+Proof.
+  induction ds as [|x0 ds IH]; intros seen k (x & Hx & Ek & Hv) Hs; [destruct Hx|]. cbn [keys_from].
+  destruct (vote_of o x0) eqn:V.
+  - destruct (existsb (key_eqb (di_from x0, di_to x0)) seen) eqn:E.
+    + apply IH; [|exact Hs]. destruct Hx as [->|Hx]; [|eauto].
+      exfalso. apply existsb_exists in E. destruct E as (y & Hy & E). apply key_eqb_eq in E. subst. contradiction.
+    + destruct Hx as [->|Hx]; [left; exact Ek|].
+      destruct (key_eqb (di_from x0, di_to x0) k) eqn:K.
+      * apply key_eqb_eq in K. left. exact K.
+      * right. apply IH; [eauto|]. intros [H|H]; [|contradiction]. rewrite H in K.
+        assert (T : key_eqb k k = true) by (apply key_eqb_eq; reflexivity). congruence.
+  - apply IH; [|exact Hs]. destruct Hx as [->|Hx]; [congruence | eauto].
+Qed.
+
+Lemma votes_for_nonempty ds u t : votes_for o ds u t <> [] ->
+  exists x, In x ds /\ (di_from x, di_to x) = (u, t) /\ vote_of o x <> None.
+Proof.
+  induction ds as [|x ds IH]; intros H; [exfalso; apply H; reflexivity|]. rewrite votes_for_cons in H.
+  destruct ((di_from x =? u)%N && (di_to x =? t)%N) eqn:K.
+  - destruct (vote_of o x) eqn:V.
+    + apply andb_true_iff in K. destruct K as [K1 K2]. apply N.eqb_eq in K1. apply N.eqb_eq in K2.
+      exists x. split; [left; reflexivity|]. split; [congruence | congruence].
+    + cbn [app] in H. destruct (IH H) as (y & Hy & E & Hv). exists y. auto using in_cons.
+  - cbn [app] in H. destruct (IH H) as (y & Hy & E & Hv). exists y. auto using in_cons.
+Qed.
+
+(* a claim exists exactly when enough stored features vote *)
+Lemma claim_exists_iff ds a b :
+  (exists c, In c (claims o ds) /\ cl_from c = a /\ cl_to c = b) <->
+  (votes_for o ds a b <> [] /\ to_min_votes o <= length (votes_for o ds a b)).
+Proof.
+  split.
+  - intros (c & Hc & <- & <-). destruct (claims_spec _ _ Hc) as (Hk & Hv & Hmin & _).
+    split; [|rewrite <- Hv; exact Hmin].
+    destruct (keys_from_in _ _ _ Hk) as (x & Hx & Ek & Hvote). injection Ek as E1 E2.
+    intros Hnil. clear Hv Hmin Hk Hc.
+    induction ds as [|y ds IH]; [destruct Hx|]. rewrite votes_for_cons in Hnil. apply app_eq_nil in Hnil. destruct Hnil as [N1 N2].
+    destruct Hx as [->|Hx]; [|exact (IH Hx N2)].
+    rewrite E1, E2, !N.eqb_refl in N1. cbn [andb] in N1. destruct (vote_of o x); congruence.
+  - intros [Hne Hmin].
+    assert (Hk : In (a, b) (keys_from o [] ds)).
+    { apply keys_from_complete; [apply votes_for_nonempty, Hne | intros []]. }
+    exists (mkClaim a b (Qsum (map (fun e => (max_dist ds - e)%Q) (votes_for o ds a b))) (length (votes_for o ds a b))).
+    split; [|split; reflexivity].
+    unfold claims. apply in_flat_map. exists (a, b). split; [exact Hk|]. cbn [fst snd].
+    destruct (Nat.leb_spec (to_min_votes o) (length (votes_for o ds a b))); [left; reflexivity | lia].
+Qed.
+
+Definition vote_ok (cl : call) (u : N) (gx : gentry) : bool := g_feat gx && is_ok (to_vis o) (c_fd cl u (g_uid gx)).
+
+(* the facts behind a claim *)
+Lemma claim_sound cl e tracks c :
+  NoDup (map d_uid (c_dets cl)) -> NoDup (ids tracks) ->
+  In c (claims o (all_dists o cl e tracks)) ->
+  exists d t, In d (c_dets cl) /\ In t tracks /\ d_uid d = cl_from c /\ tt_id t = cl_to c /\
+              compatible o (c_scene cl) e t = true /\
+              can_use o d = true /\ d_feat d = true /\ to_min_len o <= collected t /\
+              to_min_votes o <= cl_votes c /\
+              cl_votes c <= length (filter (vote_ok cl (d_uid d)) (t_gal (tt_body t))).
+Proof.
+  intros NDd NDt Hc. destruct (claims_spec _ _ Hc) as (Hk & Hv & Hmin & _).
+  destruct (keys_from_in _ _ _ Hk) as (x & Hx & Ekey & Hvote). injection Ekey as Ef Et.
+  destruct (all_dists_in _ _ _ _ Hx) as (d & t & Hd & Ht & Hcomp & Hxp).
+  destruct (dists_obs_in _ _ _ _ _ _ Hxp) as (Hfrom & Hto & (gx & Hgx & Hfd) & _).
+  exists d, t. split; [exact Hd|]. split; [exact Ht|]. split; [congruence|]. split; [congruence|]. split; [exact Hcomp|].
+  assert (Hsome : exists w, visual_metric o cl d t gx = Some w).
+  { unfold vote_of in Hvote. rewrite Hfd in Hvote. destruct (visual_metric o cl d t gx); [eauto | congruence]. }
+  destruct Hsome as (w & Hw). destruct (visual_metric_some _ _ _ _ _ Hw) as (U1 & U2 & _ & U4 & _).
+  split; [exact U1|]. split; [exact U2|]. split; [exact U4|]. split; [exact Hmin|].
+  rewrite Hv, <- Ef, <- Et, Hfrom, Hto.
+  (* collapse the double flat_map to the (d, t) block *)
+  unfold all_dists.
+  rewrite (votes_for_collapse d_uid _ (c_dets cl) d); [|exact NDd | exact Hd |].
+  - rewrite (votes_for_collapse tt_id _ tracks t); [|exact NDt | exact Ht |].
+    + rewrite Hcomp. unfold dists_pair. etransitivity; [apply votes_for_dists_obs_len|].
+      apply filter_length_mono. intros g0 Hg0. unfold vm_ok in Hg0. unfold vote_ok.
+      destruct (visual_metric o cl d t g0) eqn:V; [|discriminate].
+      destruct (visual_metric_some _ _ _ _ _ V) as (_ & _ & G & _ & I & _). rewrite G, I. reflexivity.
+    + intros t' Hne. destruct (compatible o (c_scene cl) e t'); [|reflexivity].
+      apply votes_for_other. intros y Hy. destruct (dists_obs_in _ _ _ _ _ _ Hy) as (_ & B & _). right. congruence.
+  - intros d' Hne. apply votes_for_flat_map_nil. intros t' _.
+    destruct (compatible o (c_scene cl) e t'); [|reflexivity].
+    apply votes_for_other. intros y Hy. destruct (dists_obs_in _ _ _ _ _ _ Hy) as (A & _). left. congruence.
+Qed.
+
 End P.
+
+(* ================================================================================================ *)
+(* Top level: one call from an arbitrary state                                                      *)
+
+Lemma NoDup_map_inj {A} (f : A -> N) l a b : NoDup (map f l) -> In a l -> In b l -> f a = f b -> a = b.
+Proof.
+  induction l as [|x l IH]; intros ND Ha Hb E; [destruct Ha|].
+  cbn [map] in ND. apply NoDup_cons_iff in ND. destruct ND as [Hx ND].
+  destruct Ha as [->|Ha]; destruct Hb as [->|Hb]; auto.
+  - exfalso. apply Hx. rewrite E. apply in_map, Hb.
+  - exfalso. apply Hx. rewrite <- E. apply in_map, Ha.
+Qed.
+
+Lemma track_step_collected g t s : a_collected (t_attrs (track_step g t s)) = count_feat (t_gal (track_step g t s)).
+Proof. destruct (track_step_attrs g t s) as [Ha Hg]. rewrite Ha, Hg. apply optimize_gal. Qed.
+
+Section Top.
+Variable o : topts.
+
+Definition plan_of (st : tstate) (cl : call) : plan := make_plan o st cl.
+
+Lemma step_unfold st cl st' recs : step o st cl = (st', recs) ->
+  apply_all o (c_scene cl) (p_epoch (plan_of st cl)) (s_tracks st, s_next st) (p_decisions (plan_of st cl))
+  = ((s_tracks st', s_next st'), recs) /\
+  s_epochs st' = set_epoch (s_epochs st) (c_scene cl) (p_epoch (plan_of st cl)).
+Proof.
+  unfold step, step_plan, plan_of.
+  destruct (apply_all o (c_scene cl) (p_epoch (make_plan o st cl)) (s_tracks st, s_next st) (p_decisions (make_plan o st cl)))
+    as [[ts next] rs] eqn:E.
+  intros H. injection H as <- <-. cbn. auto.
+Qed.
+
+Lemma decisions_nth st cl i d :
+  nth_error (c_dets cl) i = Some d ->
+  nth_error (p_decisions (plan_of st cl)) i = Some (d, decide (p_bf (plan_of st cl)) (p_sol (plan_of st cl)) (d_uid d)).
+Proof.
+  intros H. unfold plan_of, make_plan. cbn [p_decisions p_bf p_sol]. rewrite nth_error_map, H. reflexivity.
+Qed.
+
+Lemma decide_visual bf sol c t : decide bf sol c = Attach t true <-> visual_decision bf c = VWin t.
+Proof.
+  unfold decide. destruct (visual_decision bf c) as [t'| |] eqn:E.
+  - split; intros H; injection H as <-; reflexivity.
+  - split; discriminate.
+  - destruct (find (fun p => (fst p =? c)%N) sol); split; discriminate.
+Qed.
+
+Lemma decide_new bf sol c : decide bf sol c = NewTrack <->
+  (exists t, visual_decision bf c = VLost t) \/ (visual_decision bf c = VNone /\ find (fun p => (fst p =? c)%N) sol = None).
+Proof.
+  unfold decide. destruct (visual_decision bf c) as [t'|t'|] eqn:E.
+  - split; [discriminate|]. intros [[t H]|[H _]]; discriminate.
+  - split; [eauto|reflexivity].
+  - destruct (find (fun p => (fst p =? c)%N) sol).
+    + split; [discriminate|]. intros [[t H]|[_ H]]; discriminate.
+    + split; [intros _; right; split; reflexivity | reflexivity].
+Qed.
+
+Lemma decide_positional bf sol c t : decide bf sol c = Attach t false <->
+  visual_decision bf c = VNone /\ exists p, find (fun p => (fst p =? c)%N) sol = Some p /\ snd p = t.
+Proof.
+  unfold decide. destruct (visual_decision bf c) as [t'|t'|] eqn:E.
+  - split; [discriminate|]. intros [H _]; discriminate.
+  - split; [discriminate|]. intros [H _]; discriminate.
+  - destruct (find (fun p => (fst p =? c)%N) sol) as [p|].
+    + split.
+      * intros H. injection H as <-. eauto.
+      * intros [_ (p' & Hp & <-)]. injection Hp as <-. reflexivity.
+    + split; [discriminate|]. intros [_ (p' & Hp & _)]. discriminate.
+Qed.
+
+(* a claim's track is a stored, compatible track *)
+Lemma claim_track_stored st cl c : In c (claims o (p_dists (plan_of st cl))) ->
+  exists t, In t (s_tracks st) /\ tt_id t = cl_to c /\ compatible o (c_scene cl) (p_epoch (plan_of st cl)) t = true.
+Proof.
+  intros Hc. destruct (claims_spec o _ _ Hc) as (Hk & _).
+  destruct (keys_from_in o _ _ _ Hk) as (x & Hx & Ekey & _). injection Ekey as _ Et.
+  unfold plan_of, make_plan in Hx. cbn [p_dists] in Hx.
+  destruct (all_dists_in o _ _ _ _ Hx) as (d & t & _ & Ht & Hcomp & Hxp).
+  destruct (dists_obs_in o _ _ _ _ _ _ Hxp) as (_ & Hto & _).
+  exists t. split; [exact Ht|]. split; [congruence | exact Hcomp].
+Qed.
+
+Lemma win_track_stored st cl c t : visual_decision (p_bf (plan_of st cl)) c = VWin t -> In t (ids (s_tracks st)).
+Proof.
+  intros H. destruct (visual_decision_win _ _ _ H) as (cm & Hin & _ & Hto).
+  assert (Hc : In cm (claims o (p_dists (plan_of st cl)))) by (eapply bestfit_in_claims; exact Hin).
+  destruct (claim_track_stored _ _ _ Hc) as (t0 & Ht0 & Hid & _).
+  unfold ids. rewrite <- Hto, <- Hid. apply in_map, Ht0.
+Qed.
+
+(* ---- the record of one detection -------------------------------------------------------------------- *)
+Lemma record_facts st cl st' recs i d r :
+  step o st cl = (st', recs) -> nth_error (c_dets cl) i = Some d -> nth_error recs i = Some r ->
+  let p := plan_of st cl in
+  let dec := decide (p_bf p) (p_sol p) (d_uid d) in
+  tr_epoch r = p_epoch p /\
+  (tr_visual r = true -> exists t, dec = Attach t true /\ tr_id r = t) /\
+  (forall t v, dec = Attach t v -> In t (ids (s_tracks st)) -> tr_id r = t /\ tr_visual r = v) /\
+  (dec = NewTrack -> (s_next st < tr_id r)%N /\ tr_visual r = false /\ tr_len r = 1).
+Proof.
+  intros Hs Hd Hr. cbn zeta. destruct (step_unfold _ _ _ _ Hs) as [Ha _].
+  destruct (apply_all_spec o _ _ _ _ _ _ _ _ Ha) as (_ & _ & _ & _ & _ & Hrec).
+  exact (Hrec i d _ r (decisions_nth st cl i d Hd) Hr).
+Qed.
+
+Lemma records_length st cl st' recs : step o st cl = (st', recs) -> length recs = length (c_dets cl).
+Proof.
+  intros Hs. destruct (step_unfold _ _ _ _ Hs) as [Ha _].
+  destruct (apply_all_spec o _ _ _ _ _ _ _ _ Ha) as (Hl & _). rewrite Hl.
+  unfold plan_of, make_plan. cbn [p_decisions]. apply map_length.
+Qed.
+
+(* ---- voting type ------------------------------------------------------------------------------------- *)
+Lemma voting_type_truthful_lemma st cl st' recs i d r :
+  step o st cl = (st', recs) -> nth_error (c_dets cl) i = Some d -> nth_error recs i = Some r ->
+  (tr_visual r = true <-> exists t, visual_decision (p_bf (plan_of st cl)) (d_uid d) = VWin t /\ tr_id r = t).
+Proof.
+  intros Hs Hd Hr. destruct (record_facts _ _ _ _ _ _ _ Hs Hd Hr) as (_ & Hv & Ha & _). split.
+  - intros H. destruct (Hv H) as (t & Hdec & Hid). exists t. split; [apply decide_visual in Hdec; exact Hdec | exact Hid].
+  - intros (t & Hw & _). pose proof (proj2 (decide_visual _ (p_sol (plan_of st cl)) _ _) Hw) as Hdec.
+    destruct (Ha t true Hdec (win_track_stored _ _ _ _ Hw)) as [_ Hvis]. exact Hvis.
+Qed.
+
+(* ---- appearance attachments are sound and go to the heaviest claimant ----------------------------------- *)
+Lemma visual_attach_lemma st cl st' recs i d r :
+  NoDup (map d_uid (c_dets cl)) -> NoDup (ids (s_tracks st)) ->
+  step o st cl = (st', recs) -> nth_error (c_dets cl) i = Some d -> nth_error recs i = Some r ->
+  tr_visual r = true ->
+  exists t c, In t (s_tracks st) /\ tt_id t = tr_id r /\
+     In (c, true) (p_bf (plan_of st cl)) /\ cl_from c = d_uid d /\ cl_to c = tr_id r /\
+     compatible o (c_scene cl) (p_epoch (plan_of st cl)) t = true /\
+     can_use o d = true /\ d_feat d = true /\ to_min_len o <= collected t /\
+     to_min_votes o <= cl_votes c /\
+     cl_votes c <= length (filter (vote_ok o cl (d_uid d)) (t_gal (tt_body t))) /\
+     (forall c', In c' (claims o (p_dists (plan_of st cl))) -> cl_to c' = tr_id r -> (cl_w c' <= cl_w c)%Q).
+Proof.
+  intros NDd NDt Hs Hd Hr Hv.
+  destruct (proj1 (voting_type_truthful_lemma _ _ _ _ _ _ _ Hs Hd Hr) Hv) as (tid & Hw & Hid).
+  destruct (visual_decision_win _ _ _ Hw) as (c & Hin & Hfrom & Hto).
+  assert (Hc : In c (claims o (p_dists (plan_of st cl)))) by (eapply bestfit_in_claims; exact Hin).
+  unfold plan_of, make_plan in Hc. cbn [p_dists] in Hc.
+  destruct (claim_sound o _ _ _ _ NDd NDt Hc) as (d' & t & Hd' & Ht & Eu & Et & Hcomp & U1 & U2 & U3 & U4 & U5).
+  assert (Edd : d' = d).
+  { apply (NoDup_map_inj d_uid (c_dets cl)); auto. eapply nth_error_In; exact Hd. congruence. }
+  subst d'. exists t, c. subst tid.
+  split; [exact Ht|]. split; [congruence|]. split; [exact Hin|]. split; [exact Hfrom|]. split; [exact Hto|].
+  split; [exact Hcomp|]. split; [exact U1|]. split; [exact U2|]. split; [exact U3|]. split; [exact U4|]. split; [exact U5|].
+  intros c' Hc' Hto'. apply (bestfit_heaviest o _ _ Hin c' Hc'). congruence.
+Qed.
+
+(* ---- positional fallback -------------------------------------------------------------------------------- *)
+Lemma excluded_spec bf cands t : In t (excluded bf cands) <-> exists c, In c cands /\ visual_decision bf c = VWin t.
+Proof.
+  unfold excluded. rewrite in_flat_map. split.
+  - intros (c & Hc & H). exists c. split; [exact Hc|]. destruct (visual_decision bf c); try destruct H as [<-|[]]; try destruct H. reflexivity.
+  - intros (c & Hc & H). exists c. split; [exact Hc|]. rewrite H. left. reflexivity.
+Qed.
+
+Lemma remaining_spec ds bf cands c t z :
+  In (c, t, z) (remaining ds bf cands) <->
+  exists x w, In x ds /\ di_from x = c /\ di_to x = t /\ di_pos x = Some (w, z) /\
+              ~ In c (claimants bf) /\ ~ In t (excluded bf cands).
+Proof.
+  unfold remaining. rewrite in_flat_map. split.
+  - intros (x & Hx & H). destruct (di_pos x) as [[w z']|] eqn:P; [|destruct H].
+    destruct (memN (di_from x) (claimants bf)) eqn:M1; [destruct H|].
+    destruct (memN (di_to x) (excluded bf cands)) eqn:M2; [destruct H|].
+    cbn [orb] in H. destruct H as [H|[]]. injection H as <- <- <-.
+    exists x, w. apply memN_false in M1. apply memN_false in M2. auto 10.
+  - intros (x & w & Hx & <- & <- & P & N1 & N2). exists x. split; [exact Hx|]. rewrite P.
+    apply memN_false in N1. apply memN_false in N2. rewrite N1, N2. left. reflexivity.
+Qed.
+
+Lemma positional_fallback_lemma st cl :
+  let p := plan_of st cl in
+  p_sol p = c_solver cl (to_thr_z o) (p_remaining p) /\
+  p_remaining p = remaining (p_dists p) (p_bf p) (map d_uid (c_dets cl)) /\
+  forall st' recs i d r,
+    step o st cl = (st', recs) -> nth_error (c_dets cl) i = Some d -> nth_error recs i = Some r ->
+    ~ In (d_uid d) (claimants (p_bf p)) ->
+    match find (fun q => (fst q =? d_uid d)%N) (p_sol p) with
+    | Some q => In (snd q) (ids (s_tracks st)) -> tr_id r = snd q /\ tr_visual r = false
+    | None => (s_next st < tr_id r)%N /\ tr_visual r = false /\ tr_len r = 1
+    end.
+Proof.
+  cbn zeta. split; [reflexivity|]. split; [reflexivity|].
+  intros st' recs i d r Hs Hd Hr Hn.
+  destruct (record_facts _ _ _ _ _ _ _ Hs Hd Hr) as (_ & _ & Ha & Hnew).
+  apply visual_decision_none in Hn.
+  destruct (find (fun q => (fst q =? d_uid d)%N) (p_sol (plan_of st cl))) as [q|] eqn:F.
+  - intros Hin. apply (Ha (snd q) false); [|exact Hin].
+    apply decide_positional. split; [exact Hn|]. exists q. auto.
+  - apply Hnew. apply decide_new. right. auto.
+Qed.
+
+(* ---- contests ---------------------------------------------------------------------------------------------- *)
+Lemma contest_loser_lemma st cl st' recs i j di dj ri rj cj :
+  Forall (fun id => (id <= s_next st)%N) (ids (s_tracks st)) ->
+  step o st cl = (st', recs) ->
+  nth_error (c_dets cl) i = Some di -> nth_error recs i = Some ri ->
+  nth_error (c_dets cl) j = Some dj -> nth_error recs j = Some rj ->
+  d_uid di <> d_uid dj ->
+  tr_visual ri = true ->
+  In cj (claims o (p_dists (plan_of st cl))) -> cl_from cj = d_uid dj -> cl_to cj = tr_id ri ->
+  tr_id rj <> tr_id ri /\ (tr_visual rj = false -> (s_next st < tr_id rj)%N /\ tr_len rj = 1).
+Proof.
+  intros Hbound Hs Hdi Hri Hdj Hrj Hne Hvi Hcj Hfj Htj.
+  destruct (proj1 (voting_type_truthful_lemma _ _ _ _ _ _ _ Hs Hdi Hri) Hvi) as (t & Hwi & Hidi).
+  destruct (visual_decision_win _ _ _ Hwi) as (ci & Hini & Hfromi & Htoi).
+  assert (Hti : In t (ids (s_tracks st))) by (eapply win_track_stored; exact Hwi).
+  assert (Hle : (t <= s_next st)%N) by (rewrite Forall_forall in Hbound; apply Hbound, Hti).
+  destruct (record_facts _ _ _ _ _ _ _ Hs Hdj Hrj) as (_ & Hvj & Haj & Hnewj).
+  (* dj is a claimant: its visual decision is a win or a loss *)
+  assert (Hcl : In (d_uid dj) (claimants (p_bf (plan_of st cl)))).
+  { rewrite <- Hfj. unfold plan_of, make_plan. cbn [p_bf]. apply claim_is_claimant. exact Hcj. }
+  destruct (visual_decision (p_bf (plan_of st cl)) (d_uid dj)) as [t'|t'|] eqn:Ej.
+  - (* wins some track t' <> t *)
+    pose proof (proj2 (decide_visual _ (p_sol (plan_of st cl)) _ _) Ej) as Hdec.
+    destruct (Haj t' true Hdec (win_track_stored _ _ _ _ Ej)) as [Hidj Hvisj].
+    split.
+    + rewrite Hidj, Hidi. intros Eq. subst t'.
+      destruct (visual_decision_win _ _ _ Ej) as (cj' & Hinj & Hfromj & Htoj).
+      unfold plan_of, make_plan in Hini, Hinj. cbn [p_bf] in Hini, Hinj. unfold bestfit in Hini, Hinj.
+      assert (E : ci = cj') by (eapply greedy_won_unique; [exact Hini | exact Hinj | congruence]).
+      subst cj'. congruence.
+    + rewrite Hvisj. discriminate.
+  - (* lost its heaviest claim: new track *)
+    assert (Hdec : decide (p_bf (plan_of st cl)) (p_sol (plan_of st cl)) (d_uid dj) = NewTrack).
+    { apply decide_new. left. eauto. }
+    destruct (Hnewj Hdec) as (Hfresh & _ & Hlen). split; [lia | auto].
+  - exfalso. apply visual_decision_none in Ej. exact (Ej Hcl).
+Qed.
+
+(* ---- new tracks ----------------------------------------------------------------------------------------------- *)
+Lemma unmatched_lemma st cl st' recs i d r :
+  step o st cl = (st', recs) -> nth_error (c_dets cl) i = Some d -> nth_error recs i = Some r ->
+  let p := plan_of st cl in
+  ((exists t, visual_decision (p_bf p) (d_uid d) = VLost t) \/
+   (~ In (d_uid d) (claimants (p_bf p)) /\ find (fun q => (fst q =? d_uid d)%N) (p_sol p) = None)) ->
+  (s_next st < tr_id r)%N /\ tr_visual r = false /\ tr_len r = 1 /\ tr_epoch r = p_epoch p.
+Proof.
+  intros Hs Hd Hr. cbn zeta. intros Hcase.
+  destruct (record_facts _ _ _ _ _ _ _ Hs Hd Hr) as (Hep & _ & _ & Hnew).
+  assert (Hdec : decide (p_bf (plan_of st cl)) (p_sol (plan_of st cl)) (d_uid d) = NewTrack).
+  { apply decide_new. destruct Hcase as [H|[H1 H2]]; [left; exact H | right]. split; [apply visual_decision_none, H1 | exact H2]. }
+  destruct (Hnew Hdec) as (A & B & C). auto.
+Qed.
+
+(* ---- invariants of reachable states ------------------------------------------------------------------------------ *)
+Definition tinv (st : tstate) : Prop :=
+  NoDup (ids (s_tracks st)) /\ Forall (fun id => (id <= s_next st)%N) (ids (s_tracks st)) /\
+  Forall (fun t => collected t = count_feat (t_gal (tt_body t))) (s_tracks st).
+
+Lemma update_track_forall (P : ttrack -> Prop) ts id f ts' t' :
+  (forall t, P t -> P (f t)) -> Forall P ts -> update_track ts id f = Some (ts', t') -> Forall P ts'.
+Proof.
+  intros Hf. revert ts' t'. induction ts as [|t r IH]; intros ts' t' F H; [discriminate|]. cbn [update_track] in H.
+  apply Forall_cons_iff in F. destruct F as [Pt F].
+  destruct (tt_id t =? id)%N.
+  - injection H as <- <-. constructor; auto.
+  - destruct (update_track r id f) as [[r' t1]|] eqn:E; [|discriminate]. injection H as <- <-.
+    constructor; [exact Pt | eapply IH; eauto].
+Qed.
+
+Lemma apply_all_forall (P : ttrack -> Prop) scene e :
+  (forall id d, P (new_track o id scene e d)) -> (forall t v d, P t -> P (merge_into o t e v d)) ->
+  forall dds ts next ts' next' recs,
+    apply_all o scene e (ts, next) dds = ((ts', next'), recs) -> Forall P ts -> Forall P ts'.
+Proof.
+  intros Hnew Hmerge. induction dds as [|[d dec] dds IH]; intros ts next ts' next' recs H F.
+  - cbn in H. injection H as <- <- <-. exact F.
+  - cbn [apply_all] in H.
+    destruct (apply_one o scene e (ts, next) (d, dec)) as [[ts1 next1] r0] eqn:E1.
+    destruct (apply_all o scene e (ts1, next1) dds) as [[ts2 next2] recs2] eqn:E2.
+    injection H as <- <- <-. eapply IH; [exact E2|].
+    unfold apply_one in E1.
+    assert (Fresh : Forall P (ts ++ [new_track o (next + 1) scene e d])).
+    { apply Forall_app. split; [exact F | constructor; [apply Hnew | constructor]]. }
+    destruct dec as [|tid v].
+    + injection E1 as <- <- <-. exact Fresh.
+    + destruct (update_track ts tid (fun t => merge_into o t e v d)) as [[tsu tu]|] eqn:U.
+      * injection E1 as <- <- <-. eapply update_track_forall; [|exact F | exact U]. intros t Pt. apply Hmerge, Pt.
+      * injection E1 as <- <- <-. exact Fresh.
+Qed.
+
+Lemma step_inv st cl : tinv st -> tinv (fst (step o st cl)).
+Proof.
+  intros (ND & B & C). destruct (step o st cl) as [st' recs] eqn:Hs. cbn [fst].
+  destruct (step_unfold _ _ _ _ Hs) as [Ha _].
+  destruct (apply_all_spec o _ _ _ _ _ _ _ _ Ha) as (_ & _ & _ & Hb & Hnd & _).
+  split; [apply Hnd; assumption|]. split; [apply Hb, B|].
+  eapply (apply_all_forall (fun t => collected t = count_feat (t_gal (tt_body t)))); [| |exact Ha | exact C].
+  - intros id d. unfold collected, new_track. cbn [tt_body]. apply track_step_collected.
+  - intros t v d _. unfold collected, merge_into. cbn [tt_body]. apply track_step_collected.
+Qed.
+
+Lemma run_inv cls : forall st, tinv st -> tinv (run o st cls).
+Proof. induction cls as [|cl cls IH]; intros st H; [exact H|]. cbn [run]. apply IH, step_inv, H. Qed.
+
+Lemma state0_inv : tinv state0.
+Proof. unfold tinv, state0. cbn. repeat split; constructor. Qed.
+
+Lemma reachable_inv cls : tinv (run o state0 cls).
+Proof. apply run_inv, state0_inv. Qed.
+
+End Top.
+
+(* ================================================================================================ *)
+(* The positional solver's certificate: an answer accepted by [matching_ok] is a maximum-value matching *)
+
+Local Open Scope Z_scope.
+
+Definition cell (pairs : list (N * N * Z)) (thr : Z) (m : list (N * N)) (c : N) : Z :=
+  match find (fun p => (fst p =? c)%N) m with
+  | Some p => match weight_of pairs c (snd p) with Some w => w | None => 0 end
+  | None => thr
+  end.
+
+Fixpoint value_rows (pairs : list (N * N * Z)) (thr : Z) (rows : list N) (m : list (N * N)) : Z :=
+  match rows with [] => 0 | c :: r => cell pairs thr m c + value_rows pairs thr r m end.
+
+Lemma matching_value_rows thr pairs m :
+  matching_value thr pairs m = value_rows pairs thr (rows_of [] pairs) m.
+Proof.
+  unfold matching_value. generalize (rows_of [] pairs) as rows.
+  assert (G : forall rows a,
+             fold_left (fun acc c => match find (fun p => (fst p =? c)%N) m with
+                                     | Some p => match weight_of pairs c (snd p) with Some w => acc + w | None => acc end
+                                     | None => acc + thr end) rows a = a + value_rows pairs thr rows m).
+  { induction rows as [|c r IH]; intros a; cbn [fold_left value_rows]; [lia|]. rewrite IH. unfold cell.
+    destruct (find (fun p => (fst p =? c)%N) m) as [p|]; [destruct (weight_of pairs c (snd p))|]; lia. }
+  intros rows. rewrite G. lia.
+Qed.
+
+Definition ok_m (pairs : list (N * N * Z)) (rows used : list N) (m : list (N * N)) : Prop :=
+  NoDup (map fst m) /\ NoDup (map snd m) /\
+  forall c t, In (c, t) m -> In c rows /\ ~ In t used /\ weight_of pairs c t <> None.
+
+Lemma find_remove {A} (f : A -> bool) m1 x m2 : f x = false -> find f (m1 ++ x :: m2) = find f (m1 ++ m2).
+Proof. intros H. induction m1 as [|y m1 IH]; cbn [app find]; [rewrite H; reflexivity|]. destruct (f y); [reflexivity | exact IH]. Qed.
+
+Lemma value_rows_remove pairs thr rows m1 c t m2 : ~ In c rows ->
+  value_rows pairs thr rows (m1 ++ (c, t) :: m2) = value_rows pairs thr rows (m1 ++ m2).
+Proof.
+  induction rows as [|c' r IH]; intros Hn; [reflexivity|]. cbn [value_rows]. rewrite IH by (intros H; apply Hn; right; exact H).
+  f_equal. unfold cell. rewrite find_remove; [reflexivity|]. cbn [fst]. apply N.eqb_neq. intros ->. apply Hn. left. reflexivity.
+Qed.
+
+Lemma value_rows_unmatched pairs thr rows m : (forall c, In c rows -> find (fun p => (fst p =? c)%N) m = None) ->
+  value_rows pairs thr rows m = thr * Z.of_nat (length rows).
+Proof.
+  induction rows as [|c r IH]; intros H; [cbn; lia|]. cbn [value_rows length]. unfold cell at 1. rewrite (H c (or_introl eq_refl)).
+  rewrite IH by (intros; apply H; right; assumption). lia.
+Qed.
+
+Definition bf_step (thr : Z) (pairs : list (N * N * Z)) (c : N) (r used : list N) (best : Z * list (N * N)) (p : N * N * Z) : Z * list (N * N) :=
+  if (fst (fst p) =? c)%N && negb (memN (snd (fst p)) used) then
+    match weight_of pairs c (snd (fst p)) with
+    | Some w => if w <? thr then best
+                else let '(v, m) := best_from thr pairs r (snd (fst p) :: used) in
+                     if fst best <? v + w then (v + w, (c, snd (fst p)) :: m) else best
+    | None => best
+    end
+  else best.
+
+Lemma best_from_cons thr pairs c r used :
+  best_from thr pairs (c :: r) used =
+  fold_left (bf_step thr pairs c r used) pairs (let '(v, m) := best_from thr pairs r used in (v + thr, m)).
+Proof. reflexivity. Qed.
+
+Lemma bf_step_mono thr pairs c r used best p : fst best <= fst (bf_step thr pairs c r used best p).
+Proof.
+  unfold bf_step. destruct ((fst (fst p) =? c)%N && negb (memN (snd (fst p)) used)); [|lia].
+  destruct (weight_of pairs c (snd (fst p))) as [w|]; [|lia]. destruct (w <? thr); [lia|].
+  destruct (best_from thr pairs r (snd (fst p) :: used)) as [v m].
+  destruct (Z.ltb_spec (fst best) (v + w)); cbn [fst]; lia.
+Qed.
+
+Lemma fold_mono {A} (f : Z * list (N * N) -> A -> Z * list (N * N)) l :
+  (forall b a, fst b <= fst (f b a)) -> forall init, fst init <= fst (fold_left f l init).
+Proof.
+  intros Hf. induction l as [|x l IH]; intros init; cbn [fold_left]; [lia|].
+  etransitivity; [apply (Hf init x) | apply IH].
+Qed.
+
+Lemma fold_ge {A} (f : Z * list (N * N) -> A -> Z * list (N * N)) l K :
+  (forall b a, fst b <= fst (f b a)) ->
+  forall init, (exists a, In a l /\ forall b, K <= fst (f b a)) -> K <= fst (fold_left f l init).
+Proof.
+  intros Hf. induction l as [|x l IH]; intros init (a & Ha & HK); [destruct Ha|]. cbn [fold_left].
+  destruct Ha as [->|Ha].
+  - etransitivity; [apply (HK init) | apply fold_mono, Hf].
+  - apply IH. eauto.
+Qed.
+
+Lemma weight_of_some pairs c t w : weight_of pairs c t = Some w ->
+  exists p, In p pairs /\ fst (fst p) = c /\ snd (fst p) = t.
+Proof.
+  unfold weight_of. destruct (find (fun p => (fst (fst p) =? c)%N && (snd (fst p) =? t)%N) (rev pairs)) as [p|] eqn:E; [|discriminate].
+  intros _. apply find_some in E. destruct E as [Hin Hc]. apply andb_true_iff in Hc. destruct Hc as [H1 H2].
+  apply N.eqb_eq in H1. apply N.eqb_eq in H2. exists p. split; [apply in_rev, Hin | auto].
+Qed.
+
+Lemma best_from_upper thr pairs : forall rows used m,
+  NoDup rows -> ok_m pairs rows used m -> value_rows pairs thr rows m <= fst (best_from thr pairs rows used).
+Proof.
+  induction rows as [|c r IH]; intros used m ND (Nf & Ns & Hm).
+  - cbn. lia.
+  - apply NoDup_cons_iff in ND. destruct ND as [Hc ND]. rewrite best_from_cons. cbn [value_rows]. unfold cell.
+    destruct (find (fun p => (fst p =? c)%N) m) as [[c0 t]|] eqn:F.
+    + (* c is matched to t *)
+      apply find_some in F. destruct F as [Hin Hc0]. cbn [fst] in Hc0. apply N.eqb_eq in Hc0. subst c0. cbn [snd].
+      destruct (in_split _ _ Hin) as (m1 & m2 & ->).
+      destruct (Hm c t Hin) as (_ & Htu & Hw).
+      destruct (weight_of pairs c t) as [w|] eqn:W; [|congruence].
+      rewrite map_app in Nf, Ns. cbn [map fst snd] in Nf, Ns.
+      pose proof (NoDup_remove_1 _ _ _ Nf) as Nf1. pose proof (NoDup_remove_2 _ _ _ Nf) as Nf2.
+      pose proof (NoDup_remove_1 _ _ _ Ns) as Ns1. pose proof (NoDup_remove_2 _ _ _ Ns) as Ns2.
+      rewrite <- map_app in Nf1, Nf2, Ns1, Ns2.
+      rewrite value_rows_remove by exact Hc.
+      assert (Hin' : forall c' t', In (c', t') (m1 ++ m2) -> In (c', t') (m1 ++ (c, t) :: m2)).
+      { intros c' t' H. apply in_or_app. apply in_app_or in H. destruct H; [left | right; right]; assumption. }
+      assert (Ok1 : forall used', (forall t', In t' used' -> t' = t \/ In t' used) -> ok_m pairs r used' (m1 ++ m2)).
+      { intros used' Hu. split; [exact Nf1|]. split; [exact Ns1|]. intros c' t' H.
+        destruct (Hm c' t' (Hin' _ _ H)) as (Hr & Hu' & Hw'). split; [|split; [|exact Hw']].
+        - destruct Hr as [<-|Hr]; [|exact Hr]. exfalso. apply Nf2. apply (in_map fst) in H. exact H.
+        - intros Hin2. destruct (Hu _ Hin2) as [->|Hold]; [|exact (Hu' Hold)]. apply Ns2. apply (in_map snd) in H. exact H. }
+      destruct (Z.ltb_spec w thr) as [Hlt|Hge].
+      * (* lighter than the threshold: leaving the row unmatched is at least as good *)
+        pose proof (IH used (m1 ++ m2) ND (Ok1 used (fun t' H => or_intror H))) as B.
+        etransitivity; [|apply fold_mono; intros; apply bf_step_mono].
+        destruct (best_from thr pairs r used) as [v mm]. cbn [fst] in *. lia.
+      * pose proof (IH (t :: used) (m1 ++ m2) ND (Ok1 (t :: used) (fun t' H => match H with or_introl E => or_introl (eq_sym E) | or_intror H' => or_intror H' end))) as B.
+        apply fold_ge; [intros; apply bf_step_mono|].
+        destruct (weight_of_some _ _ _ _ W) as (p & Hp & E1 & E2). exists p. split; [exact Hp|].
+        intros b. unfold bf_step. rewrite E1, E2, N.eqb_refl. apply memN_false in Htu. rewrite Htu. cbn [negb andb]. rewrite W.
+        destruct (Z.ltb_spec w thr); [lia|].
+        destruct (best_from thr pairs r (t :: used)) as [v mm]. cbn [fst] in B.
+        destruct (Z.ltb_spec (fst b) (v + w)); cbn [fst]; lia.
+    + (* c is unmatched *)
+      assert (Ok : ok_m pairs r used m).
+      { split; [exact Nf|]. split; [exact Ns|]. intros c' t' H. destruct (Hm c' t' H) as (Hr & Hu & Hw). split; [|auto].
+        destruct Hr as [<-|Hr]; [|exact Hr]. exfalso. pose proof (find_none _ _ F _ H) as Fn. cbn [fst] in Fn. rewrite N.eqb_refl in Fn. discriminate. }
+      pose proof (IH used m ND Ok) as B.
+      etransitivity; [|apply fold_mono; intros; apply bf_step_mono].
+      destruct (best_from thr pairs r used) as [v mm]. cbn [fst] in *. lia.
+Qed.
+
+Lemma rows_of_spec pairs : forall seen,
+  NoDup (rows_of seen pairs) /\ (forall c, In c (rows_of seen pairs) -> ~ In c seen) /\
+  (forall p, In p pairs -> In (fst (fst p)) seen \/ In (fst (fst p)) (rows_of seen pairs)).
+Proof.
+  induction pairs as [|p pairs IH]; intros seen; cbn [rows_of].
+  - split; [constructor|]. split; [intros c []| intros p []].
+  - destruct (memN (fst (fst p)) seen) eqn:M.
+    + destruct (IH seen) as (A & B & C). split; [exact A|]. split; [exact B|].
+      intros q [<-|Hq]; [left; apply memN_In, M | apply C, Hq].
+    + apply memN_false in M. destruct (IH (fst (fst p) :: seen)) as (A & B & C). split; [|split].
+      * constructor; [|exact A]. intros H. apply (B _ H). left. reflexivity.
+      * intros c [<-|H]; [exact M|]. intros Hs. apply (B _ H). right. exact Hs.
+      * intros q [<-|Hq]; [right; left; reflexivity|]. destruct (C q Hq) as [[E|H]|H]; [right; left; exact E | left; exact H | right; right; exact H].
+Qed.
+
+Lemma nodupN_NoDup l : nodupN l = true -> NoDup l.
+Proof.
+  induction l as [|x l IH]; cbn [nodupN]; [constructor|]. intros H. apply andb_true_iff in H. destruct H as [H1 H2].
+  constructor; [|apply IH, H2]. apply negb_true_iff in H1. apply memN_false, H1.
+Qed.
+
+Lemma matching_valid_ok pairs m : matching_valid pairs m = true -> ok_m pairs (rows_of [] pairs) [] m.
+Proof.
+  unfold matching_valid. intros H. apply andb_true_iff in H. destruct H as [H H3]. apply andb_true_iff in H. destruct H as [H1 H2].
+  split; [apply nodupN_NoDup, H2|]. split; [apply nodupN_NoDup, H3|].
+  intros c t Hin. rewrite forallb_forall in H1. specialize (H1 _ Hin). cbn [fst snd] in H1.
+  destruct (weight_of pairs c t) as [w|] eqn:W; [|discriminate]. split; [|split; [intros []|congruence]].
+  destruct (weight_of_some _ _ _ _ W) as (p & Hp & E1 & _).
+  destruct (rows_of_spec pairs []) as (_ & _ & C). destruct (C p Hp) as [[]|Hr]. rewrite E1 in Hr. exact Hr.
+Qed.
+
+(* the certificate is sound: an accepted answer is at least as good as every valid matching *)
+Lemma matching_ok_optimal thr pairs m : matching_ok thr pairs m = true ->
+  matching_valid pairs m = true /\
+  forall m', matching_valid pairs m' = true -> matching_value thr pairs m' <= matching_value thr pairs m.
+Proof.
+  unfold matching_ok. intros H. apply andb_true_iff in H. destruct H as [Hv He]. apply Z.eqb_eq in He.
+  split; [exact Hv|]. intros m' Hv'. rewrite He. unfold best_value. rewrite matching_value_rows.
+  apply best_from_upper; [apply rows_of_spec | apply matching_valid_ok, Hv'].
+Qed.
